@@ -189,8 +189,18 @@ def diff_command(args=None):
     )
     print(result)
 
-    if args.check and len(result) > 0:
-        return 1
+    if args.check:
+        if args.formatter == "xml":
+            # The XML formatter returns the whole document even when there
+            # are no differences, so look at the edit script instead.
+            result = diff_files(
+                args.file1,
+                args.file2,
+                diff_options=diff_options,
+                formatter=formatting.DiffFormatter(normalize=normalize),
+            )
+        if len(result) > 0:
+            return 1
 
 
 def patch_tree(actions, tree):
